@@ -9,8 +9,13 @@ sides raise corresponding (value-dependent) faults.
 namespace TrustVerif.StCore
 
 /-- The store-typing invariant of C03 on the program's variables. -/
-def StoreWT (Γ : Ctx) (σ : Store) : Prop :=
-  ∀ x t, Γ.lookup x = some t → ∃ v, lookup x σ.vars = some v ∧ v.hasTy t = true
+structure StoreWT (Γ : Ctx) (σ : Store) : Prop where
+  /-- every declared slot holds a value of its declared type -/
+  vars : ∀ x t, Γ.lookup x = some t → ∃ v, lookup x σ.vars = some v ∧ v.hasTy t = true
+  /-- the shapes of the aggregate values are the declared ones -/
+  aggs : σ.aggs = Γ.aggs
+  /-- the element / field slots are declared with the element / field types -/
+  ctx : Spec.aggOK Γ = true
 
 theorem slookup_erase (x : String) (e : Env) : slookup x (eraseEnv e) = (lookup x e).map erase := by
   induction e with
@@ -54,6 +59,8 @@ theorem atom_none_of_infer {Γ : Ctx} {e : Expr} {T : Ty} (h : Spec.infer Γ e =
   | blit _ => rfl
   | var _ => rfl
   | bin _ _ _ => rfl
+  | idx _ _ => rfl
+  | fld _ _ => rfl
   | un op e =>
     cases op with
     | not => rfl
@@ -84,6 +91,8 @@ theorem atom_eval {Γ : Ctx} {σ : Store} {e : Expr} {m : Int} (h : Spec.atomVal
   | blit _ => simp [Spec.atomVal] at h
   | var _ => simp [Spec.atomVal] at h
   | bin _ _ _ => simp [Spec.atomVal] at h
+  | idx _ _ => simp [Spec.atomVal] at h
+  | fld _ _ => simp [Spec.atomVal] at h
   | un op e =>
     cases op with
     | not => simp [Spec.atomVal] at h
@@ -115,12 +124,6 @@ theorem RelV.elim {T : Ty} {r1 : M Val} {r2 : Except SFault SV} (h : RelV T r1 r
     cases r2 with
     | ok w => simp [RelV] at h
     | error f => simp [RelV] at h; exact .inr ⟨s, f, rfl, rfl, h⟩
-
-/-- Operand value of the reference: a contextual constant or an evaluated integer. -/
-def Spec.operandVal (Γ : Ctx) (σ : SEnv) (e : Expr) : Except SFault Int :=
-  match Spec.atomVal e with
-  | some m => pure m
-  | none => Spec.eval Γ σ e >>= Spec.asInt
 
 def Spec.inferArith (Γ : Ctx) (l r : Expr) : Option Ty :=
   match Spec.infer Γ l, Spec.infer Γ r with
@@ -208,6 +211,55 @@ theorem noDriftE_bin {Γ : Ctx} {op : BinOp} {l r : Expr} (h : noDriftE Γ (.bin
     · simp at h6
     · rename_i heq; simp at heq
 
+/-! ### Aggregates (stage S3) -/
+
+theorem mem_of_lookup {α β : Type} [BEq α] [LawfulBEq α] {a : α} {b : β} {l : List (α × β)}
+    (h : l.lookup a = some b) : (a, b) ∈ l := by
+  induction l with
+  | nil => simp [List.lookup] at h
+  | cons p rest ih =>
+    obtain ⟨x, y⟩ := p
+    simp only [List.lookup] at h
+    split at h
+    · rename_i heq
+      have : a = x := by simpa using heq
+      simp at h
+      subst h; subst this
+      exact List.mem_cons_self
+    · exact List.mem_cons_of_mem _ (ih h)
+
+theorem mem_intRange {lo hi n : Int} (h1 : lo ≤ n) (h2 : n ≤ hi) : n ∈ intRange lo hi := by
+  unfold intRange
+  rw [List.mem_map]
+  refine ⟨(n - lo).toNat, ?_, by omega⟩
+  rw [List.mem_range]
+  omega
+
+/-- An element slot is declared with the element type. -/
+theorem aggOK_arr {Γ : Ctx} (h : Spec.aggOK Γ = true) {a : String} {lo hi : Int} {t : Ty}
+    (ha : Γ.aggs.lookup a = some (.arr lo hi t)) {n : Int} (h1 : lo ≤ n) (h2 : n ≤ hi) :
+    Γ.lookup (elemName a n) = some t := by
+  unfold Spec.aggOK at h
+  rw [List.all_eq_true] at h
+  have h3 := h _ (mem_of_lookup ha)
+  simp only at h3
+  rw [List.all_eq_true] at h3
+  simpa using h3 n (mem_intRange h1 h2)
+
+/-- A field slot is declared with the field type. -/
+theorem aggOK_fld {Γ : Ctx} (h : Spec.aggOK Γ = true) {s tn : String} {fields : List (String × Ty)}
+    (ha : Γ.aggs.lookup s = some (.str tn fields)) {f : String} {t : Ty} (hf : fields.lookup f = some t) :
+    Γ.lookup (fldName s f) = some t := by
+  unfold Spec.aggOK at h
+  rw [List.all_eq_true] at h
+  have h3 := h _ (mem_of_lookup ha)
+  simp only at h3
+  rw [List.all_eq_true] at h3
+  simpa using h3 _ (mem_of_lookup hf)
+
+theorem indexToI64_ok {k : IKind} (hk : k ≠ .ulint) (x : Int) : indexToI64 .real (.i k x) = .ok x := by
+  cases k <;> first | rfl | exact absurd rfl hk
+
 section
 variable (Γ : Ctx) (σ : Store)
 
@@ -234,6 +286,77 @@ theorem operand_atom {e : Expr} {m : Int} (ha : Spec.atomVal e = some m) (hnd : 
   refine ⟨h1, ?_, by simp [Spec.operandVal, ha, pure, Except.pure]⟩
   rw [IKind.inRange_iff]; simp [IKind.lo, IKind.hi]; omega
 
+
+/-- A subscript: both sides compute the same checked index, both report the bounds fault, or the
+subscript expression faults on both sides. -/
+theorem index_rel {i : Expr} (ih : EvalIH Γ σ i) (lo hi : Int)
+    (hty : (∃ m, Spec.atomVal i = some m) ∨ (∃ k, Spec.infer Γ i = some (.int k)))
+    (hnd : noDriftE Γ i = true) (hu : Spec.infer Γ i ≠ some (.int .ulint)) :
+    (∃ n, (evalExpr .real σ i >>= arrayIndex .real lo hi) = .ok n ∧
+        Spec.operandVal Γ (eraseEnv σ.vars) i = .ok n ∧ lo ≤ n ∧ n ≤ hi) ∨
+    (∃ n s, (evalExpr .real σ i >>= arrayIndex .real lo hi) = .error s ∧
+        Spec.operandVal Γ (eraseEnv σ.vars) i = .ok n ∧ (n < lo ∨ n > hi) ∧ s.toS = some .indexOut) ∨
+    (∃ s f, (evalExpr .real σ i >>= arrayIndex .real lo hi) = .error s ∧
+        Spec.operandVal Γ (eraseEnv σ.vars) i = .error f ∧ s.toS = some f) := by
+  have key : ∀ (k : IKind) (x : Int), k ≠ .ulint → evalExpr .real σ i = .ok (.i k x) →
+      Spec.operandVal Γ (eraseEnv σ.vars) i = .ok x →
+      (∃ n, (evalExpr .real σ i >>= arrayIndex .real lo hi) = .ok n ∧
+          Spec.operandVal Γ (eraseEnv σ.vars) i = .ok n ∧ lo ≤ n ∧ n ≤ hi) ∨
+      (∃ n s, (evalExpr .real σ i >>= arrayIndex .real lo hi) = .error s ∧
+          Spec.operandVal Γ (eraseEnv σ.vars) i = .ok n ∧ (n < lo ∨ n > hi) ∧ s.toS = some .indexOut) := by
+    intro k x hk h1 h2
+    by_cases hb : x < lo ∨ x > hi
+    · refine .inr ⟨x, .fault .IndexOutOfBounds .indexBounds, ?_, h2, hb, rfl⟩
+      simp [h1, bind, Except.bind, arrayIndex, indexToI64_ok hk, hb, fault]
+    · refine .inl ⟨x, ?_, h2, by omega, by omega⟩
+      simp [h1, bind, Except.bind, arrayIndex, indexToI64_ok hk, hb, pure, Except.pure]
+  rcases hty with ⟨m, ha⟩ | ⟨k, hi'⟩
+  · obtain ⟨h1, _, h2⟩ := operand_atom Γ σ ha hnd
+    rcases key .dint m (by decide) h1 h2 with h | h
+    · exact .inl h
+    · exact .inr (.inl h)
+  · rcases operand_infer Γ σ ih hi' hnd with ⟨x, h1, _, h2⟩ | ⟨s, f, h1, h2, h3⟩
+    · have hk : k ≠ .ulint := by
+        intro h; subst h; exact hu hi'
+      rcases key k x hk h1 h2 with h | h
+      · exact .inl h
+      · exact .inr (.inl h)
+    · exact .inr (.inr ⟨s, f, by simp [h1, bind, Except.bind], h2, h3⟩)
+
+theorem Spec.eval_idx (Γ : Ctx) (σ' : SEnv) (a : String) (i : Expr) :
+    Spec.eval Γ σ' (.idx a i) =
+      match Γ.aggs.lookup a with
+      | some (.arr lo hi _) =>
+        Spec.operandVal Γ σ' i >>= fun n =>
+          if n < lo ∨ n > hi then .error .indexOut else
+            match slookup (elemName a n) σ' with
+            | some v => pure v
+            | none => .error .stuck
+      | _ => .error .stuck := by
+  rfl
+
+/-- What `Spec.infer` says about a subscripted variable. -/
+theorem Spec.infer_idx {Γ : Ctx} {a : String} {i : Expr} {T : Ty} (h : Spec.infer Γ (.idx a i) = some T) :
+    ∃ lo hi, Γ.aggs.lookup a = some (.arr lo hi T) ∧
+      ((∃ m, Spec.atomVal i = some m ∧ lo ≤ m ∧ m ≤ hi) ∨
+       (Spec.atomVal i = none ∧ ∃ k, Spec.infer Γ i = some (.int k))) := by
+  simp only [Spec.infer] at h
+  split at h
+  · rename_i lo hi t hag
+    refine ⟨lo, hi, ?_⟩
+    split at h
+    · rename_i m hm
+      by_cases hb : lo ≤ m ∧ m ≤ hi
+      · simp [hb] at h; subst h
+        exact ⟨hag, .inl ⟨m, hm, hb.1, hb.2⟩⟩
+      · simp [hb] at h
+    · rename_i hm
+      split at h
+      · rename_i k hk
+        simp at h; subst h
+        exact ⟨hag, .inr ⟨hm, k, hk⟩⟩
+      · simp at h
+  · simp at h
 
 theorem applyBinary_arith {op : BinOp} (hop : op.isSpecArith = true) (a b : Val) :
     applyBinary op a b = numericArith op a b := by
@@ -560,7 +683,7 @@ theorem eval_rel (hσ : StoreWT Γ σ) (e : Expr) : EvalIH Γ σ e := by
   | var x =>
     intro T hT hnd
     simp only [Spec.infer] at hT
-    obtain ⟨v, hv, hty⟩ := hσ x T hT
+    obtain ⟨v, hv, hty⟩ := hσ.vars x T hT
     simp [evalExpr, readName, hv, Spec.eval, slookup_erase, RelV, pure, Except.pure, hty]
   | un op e ih =>
     intro T hT hnd
@@ -605,6 +728,36 @@ theorem eval_rel (hσ : StoreWT Γ σ) (e : Expr) : EvalIH Γ σ e := by
         · exact bin_logic_rel Γ σ h3 ihl ihr hT hnd
         · cases op <;> simp [BinOp.isSpecArith, BinOp.isCmp, BinOp.isLogic] at h1 h2 h3
           simp [Spec.infer] at hT
+  | idx a i ih =>
+    intro T hT hnd
+    obtain ⟨lo, hi, hag, hi'⟩ := Spec.infer_idx hT
+    have hσa : σ.aggs.lookup a = some (.arr lo hi T) := by rw [hσ.aggs]; exact hag
+    have ndi : noDriftE Γ i = true ∧ Spec.infer Γ i ≠ some (.int .ulint) := by
+      simpa [noDriftE] using hnd
+    have hty : (∃ m, Spec.atomVal i = some m) ∨ (∃ k, Spec.infer Γ i = some (.int k)) := by
+      rcases hi' with ⟨m, hm, _⟩ | ⟨_, k, hk⟩
+      · exact .inl ⟨m, hm⟩
+      · exact .inr ⟨k, hk⟩
+    rw [Spec.eval_idx]
+    simp only [evalExpr, hσa, hag]
+    rcases index_rel Γ σ ih lo hi hty ndi.1 ndi.2 with ⟨n, h1, h2, h3, h4⟩ | ⟨n, s, h1, h2, h3, h4⟩ | ⟨s, f, h1, h2, h3⟩
+    · obtain ⟨v, hv, hvt⟩ := hσ.vars _ _ (aggOK_arr hσ.ctx hag h3 h4)
+      have hb : ¬ (n < lo ∨ n > hi) := by omega
+      rw [h1, h2]
+      simp [bind, Except.bind, hb, readSlot, hv, slookup_erase, RelV, pure, Except.pure, hvt]
+    · rw [h1, h2]
+      simp [bind, Except.bind, h3, RelV, h4]
+    · rw [h1, h2]
+      simp [bind, Except.bind, RelV, h3]
+  | fld s f =>
+    intro T hT hnd
+    simp only [Spec.infer] at hT
+    split at hT
+    · rename_i tn fields hag
+      have hσa : σ.aggs.lookup s = some (.str tn fields) := by rw [hσ.aggs]; exact hag
+      obtain ⟨v, hv, hvt⟩ := hσ.vars _ _ (aggOK_fld hσ.ctx hag hT)
+      simp [evalExpr, hσa, hT, readSlot, hv, Spec.eval, slookup_erase, RelV, pure, Except.pure, hvt]
+    · simp at hT
 
 end
 end TrustVerif.StCore
